@@ -38,6 +38,11 @@ def corpus():
           mk_roll(es, ns, [9], 0.001, [-7, 1, 4, 12], None, 1.0, "spacing", False, "corpus-empty-windows"),
           mk_roll(es, ns, [9], 11.0, [0, 10, 0, 10], None, 1.0, "spacing", False, "oversize"),
           mk_roll(es, ns, [9], 2.0, [0, 10, 0, 10], None, None, "spacing", False, "malformed"),
+          # a window exactly as large as the smaller side of a region whose bounds are not binary fractions (finding D9)
+          mk_roll([-48.4, -10.2, -30.0, -29.3, -20.5], [0.0, 50.0, 20.0, 25.0, 31.0], [5], 38.2, [-48.4, -10.2, 0, 50], None, 5.0, "spacing", False,
+                  "corpus-size-equals-side"),
+          mk_roll([0.1, 0.7, 0.4, 0.3], [0.1, 2.3, 1.1, 0.9], [4], 0.6, [0.1, 0.7, 0.1, 2.3], (3, 1), None, "spacing", False, "corpus-size-equals-side"),
+          mk_roll([2.4, 3.5, 3.0], [-7.9, -1.1, -4.0], [3], 1.1, None, None, (1.7, 1.0), "region", False, "corpus-size-equals-side"),
           mk_exp(es, ns, [9], (5.0, 5.0), [1.0, 2.0, 6.0, 20.0], "corpus-expanding"),
           mk_exp(es, ns, [3, 3], (1.0, 1.0), [4.0, 0.0, 2.0], "corpus-expanding-unordered")]
     return cs
@@ -76,6 +81,15 @@ def generate(rng, tier):
             if size > small:
                 size = small
             kind = "rolling"
+        if kind == "rolling" and rng.random() < 0.08:
+            # decimal bounds, window exactly as large as the smaller side
+            dx, dy = rng.choice([0.1, 0.3, 0.7, 2.4, -48.4]), rng.choice([0.1, -0.3, 3.3, 0.05])
+            es, ns = [v + dx for v in es], [v + dy for v in ns]
+            if region is not None:
+                region = [region[0] + dx, region[1] + dx, region[2] + dy, region[3] + dy]
+            box = region if region is not None else (min(es), max(es), min(ns), max(ns))
+            size = min(box[1] - box[0], box[3] - box[2])
+            kind = "rolling-size-equals-side"
         adjust = rng.choice(["spacing", "region"])
         if rng.random() < 0.4:
             shape = (rng.randint(1, 5), rng.randint(1, 5))
@@ -158,8 +172,21 @@ def _cmp_windows(es, ns, iw, mw, centres, halves):
     return "amb" if amb else "ok"
 
 
+def _size_on_side(case):
+    """A rolling window exactly as large as a side of the region, with bounds that are not binary fractions: whether the float
+    size exceeds the exact side by an ulp (and where the single centre lands) is below the model's resolution."""
+    if case["fn"] != "rolling":
+        return False
+    es, ns, shape2d, size, region = case["args"][:5]
+    box = region if region is not None else (min(es), max(es), min(ns), max(ns))
+    return any(abs((hi - lo) - size) <= 1e-9 * max(1.0, abs(hi), abs(lo)) and C.fq(hi) - C.fq(lo) != C.fq(size)
+               for lo, hi in ((box[0], box[1]), (box[2], box[3])))
+
+
 def compare(case, io, mo):
     e = C.err_compare(io, mo)
+    if e and _size_on_side(case):
+        return "amb"
     if e:
         return e
     a = case["args"]
@@ -170,6 +197,8 @@ def compare(case, io, mo):
         return _cmp_windows(a[0], a[1], io, mv, [tuple(a[3])] * len(io), [s / 2 for s in a[4]])
     east, (north, wins) = io
     meast, (mnorth, mwins) = mv
+    if (len(east) != len(meast) or len(north) != len(mnorth)) and _size_on_side(case):
+        return "amb"
     if len(east) != len(meast) or len(north) != len(mnorth):
         return _amb_or_diff(case, "diff:centre grid shape")
     sc = max(1.0, max(abs(v) for v in east + north))
